@@ -44,6 +44,8 @@ def verify(seed, wt):
     sh("git stash pop -q", cwd=wt)
     res["confirmed"] = res["builds"] and res["suite_passes"] and (not res["demo_with_change_passes"]) and res["demo_without_change_passes"]
     print(json.dumps(res, indent=1))
+    meta["verified_by_me"] = dict(res, when=time.strftime("%Y-%m-%d %H:%M"), ran="go build ./...; go test -vet=off -count=1 ./...; demo with the change; demo with the change stashed")
+    json.dump(meta, open(os.path.join(seed, "meta.json"), "w"), indent=1)
     if not res["confirmed"]:
         print("--- demo with change:\n", o1, "\n--- demo without:\n", o2)
     return res
@@ -56,6 +58,8 @@ def run(sid, props):
     rc, out = sh("git -C /repo status --porcelain")
     if out.strip():
         print("refusing: /repo has local changes"); return 1
+    bak = os.path.join(ROOT, ".work", "evidence-bak-%d" % os.getpid())
+    shutil.rmtree(bak, ignore_errors=True); shutil.copytree(os.path.join(ROOT, "evidence"), bak)
     rc, out = sh("git -C /repo apply %s" % os.path.join(d, "patch.diff"))
     if rc != 0:
         print("patch does not apply:", out); return 1
@@ -76,7 +80,7 @@ def run(sid, props):
     meta["detected_by"] = sorted({p for r in meta["runs"] for p, v in r["results"].items() if v["detected"]})
     json.dump(meta, open(os.path.join(d, "meta.json"), "w"), indent=1)
     # evidence/replay files written during a mutated run must not stay
-    sh("git checkout -- evidence", cwd=ROOT)
+    shutil.rmtree(os.path.join(ROOT, "evidence")); shutil.copytree(bak, os.path.join(ROOT, "evidence")); shutil.rmtree(bak)
     return 0
 
 
